@@ -213,6 +213,56 @@ def make(interp):
         pass
     r_obj = Obj("np.r_", {}, label="np.r_")
     jnp["cumprod"] = B(cumprod); jnp["append"] = B(append); jnp["r_"] = {"__r__": True}
+    # ---- equivalents a refactoring may reach for; each is a composition of operations modelled above (nothing new is assumed)
+    def _size(a): return A.prod(list(a.shape))
+    def ptp(a, axis=None): return interp.binop("Sub", A.amax(a, axis), A.amin(a, axis))                 # peak-to-peak = max - min (the span)
+    def mean(a, axis=None):
+        a = A.from_value(a)
+        if axis is not None: raise Unsupported("mean with axis")
+        return interp.binop("Div", A.asum(a), _size(a))
+    def stack(parts, axis=0):
+        parts = [A.from_value(x) if not isinstance(x, SArr) else x for x in parts]
+        if axis != 0: raise Unsupported("stack with axis != 0")
+        sh = parts[0].shape
+        return SArr((len(parts),) + tuple(sh), lambda idx: select_list([q.get(tuple(idx[1:])) for q in parts], idx[0]) if concrete_int(idx[0]) is None else parts[concrete_int(idx[0])].get(tuple(idx[1:])))
+    def ravel_(a): return A.reshape(A.from_value(a), (-1,))
+    def squeeze(a, axis=None):
+        a = A.from_value(a); keep = [d for i, d in enumerate(a.shape) if not (concrete_int(d) == 1 and (axis is None or i == (axis if axis >= 0 else a.ndim + axis)))]
+        return A.reshape(a, tuple(keep))
+    def expand_dims(a, axis):
+        a = A.from_value(a); ax = axis if axis >= 0 else a.ndim + 1 + axis; sh = list(a.shape); sh.insert(ax, 1)
+        return A.reshape(a, tuple(sh))
+    def pad(a, pad_width, mode="constant", constant_values=0):
+        """jnp.pad / np.pad with constant fill (default 0): the original block at offset `before`, the fill elsewhere"""
+        if mode != "constant": raise Unsupported("pad mode")
+        a = A.from_value(a); pw = pad_width
+        if isinstance(pw, int): pw = [(pw, pw)] * a.ndim
+        pw = [tuple(x) if isinstance(x, (tuple, list)) else (x, x) for x in pw]
+        if len(pw) == 1 and a.ndim > 1: pw = pw * a.ndim
+        if len(pw) == 2 and a.ndim == 1 and not isinstance(pad_width[0], (tuple, list)): pw = [tuple(pad_width)]
+        sh = tuple(interp.binop("Add", interp.binop("Add", lo, d), hi) for (lo, hi), d in zip(pw, a.shape))
+        def get(idx):
+            inside = z3.And(*[z3.And(toz3(i) >= toz3(lo), toz3(i) < toz3(interp.binop("Add", lo, d))) for i, (lo, hi), d in zip(idx, pw, a.shape)])
+            inner = a.get(tuple(interp.binop("Sub", i, lo) for i, (lo, hi) in zip(idx, pw)))
+            cb = concrete_bool(z3.simplify(inside))
+            if cb is True: return inner
+            if cb is False: return constant_values
+            return A.Ite(inside, inner, constant_values)
+        return SArr(sh, get)
+    def argmin(a, axis=None):
+        a = A.from_value(a)
+        return A.argmax(SArr(a.shape, lambda idx: interp.binop("Sub", 0, a.get(idx))), axis)      # first minimiser = first maximiser of the negation
+    def count_nonzero(a, axis=None):
+        a = A.from_value(a)
+        return A.asum(SArr(a.shape, lambda idx: (a.get(idx) if z3.is_bool(toz3(a.get(idx))) else toz3(a.get(idx)) != 0)), axis)
+    def norm(x, ord=None, axis=None):
+        if axis is not None or ord not in (float("inf"), 1): raise Unsupported("linalg.norm other than the inf- / 1-norm of a whole vector")
+        x = A.from_value(x); ab = A.elementwise(A.aabs)(x)
+        return A.amax(ab) if ord == float("inf") else A.asum(ab)
+    jnp.update({"ptp": B(ptp, "ptp"), "mean": B(mean, "mean"), "stack": B(stack, "stack"), "ravel": B(ravel_, "ravel"), "squeeze": B(squeeze, "squeeze"), "expand_dims": B(expand_dims, "expand_dims"),
+                "pad": B(pad, "pad"), "argmin": B(argmin, "argmin"), "count_nonzero": B(count_nonzero, "count_nonzero"), "matmul": B(A.dot, "matmul"), "linalg": {"norm": B(norm, "linalg.norm")},
+                "amax": B(A.amax), "amin": B(A.amin), "negative": B(lambda a: interp.binop("Sub", 0, a)), "subtract": B(lambda a, b: interp.binop("Sub", a, b)), "add": B(lambda a, b: interp.binop("Add", a, b)),
+                "multiply": B(lambda a, b: interp.binop("Mult", a, b)), "size": B(lambda a: _size(A.from_value(a)))})
     np = dict(jnp)
     np["log10"] = B(log10); np["floor"] = B(floor); np["repeat"] = B(repeat1, "numpy.repeat")
     def dynamic_slice_in_dim(operand, start_index, slice_size, axis=0):
